@@ -9,7 +9,7 @@
 //                                      with EigenSolver<SparseLU> as its direct solver, 2 backend::builtin<double>
 // Oracles: |b - A x|_inf <= 2^-36 (|A|_inf |x|_inf + |b|_inf) for the NON-transposed A (a wrapper that hands the rows over as
 // columns solves A^T x = b); on monomial matrices (one power-of-two entry per row and column: every operation is exact in
-// any pivot order) x is the exact solution; the repeated right-hand side gives the bitwise identical result.
+// any pivot order of an LU / LDL^T elimination; not claimed for LLT and QR, which take square roots) x is the exact solution; the repeated right-hand side gives the bitwise identical result.
 // Output: `<n> <k> ok` (deterministic; the doubles themselves are not compared with a model).
 #include "gen.hpp"
 #include <Eigen/SparseCore>
@@ -46,7 +46,7 @@ static bool is_spd(const Mat &A) {
     for (long k = 0; k < n; ++k) { if (!(D[k][k] > 0)) return false; for (long i = k + 1; i < n; ++i) { if (D[i][k] == 0) continue; Q l = D[i][k] / D[k][k]; for (long j = k; j < n; ++j) D[i][j] -= l * D[k][j]; } }
     return true;
 }
-static void judge(Result &r, const Mat &A, const Dense &D, const std::vector<Q> &b, const std::vector<double> &xd, const std::string &what) {
+static void judge(Result &r, const Mat &A, const Dense &D, const std::vector<Q> &b, const std::vector<double> &xd, const std::string &what, bool exact_class = true) {
     std::vector<Q> x(xd.size()); for (size_t i = 0; i < xd.size(); ++i) { if (!std::isfinite(xd[i])) { r.fail(what + ": non-finite entry in the solution"); return; } x[i] = Q(xd[i]); }
     std::vector<Q> rr = dmv(D, x); for (size_t i = 0; i < rr.size(); ++i) rr[i] = b[i] - rr[i];
     Q tol = Q::frac(1, 1L << 36), bound = tol * (inf_norm(D) * inf_norm(x) + inf_norm(b));
@@ -55,14 +55,14 @@ static void judge(Result &r, const Mat &A, const Dense &D, const std::vector<Q> 
         std::vector<Q> rt = dmv(T, x); for (size_t i = 0; i < rt.size(); ++i) rt[i] = b[i] - rt[i];
         r.fail(what + ": the returned x does not solve A x = b (residual above 2^-36 (|A||x| + |b|))" + (inf_norm(rt) <= bound ? "; it solves the TRANSPOSED system" : ""));
     }
-    if (is_monomial_pow2(A)) { r.tag("monomial"); for (auto &e : rr) if (e != 0) { r.fail(what + ": monomial power-of-two matrix: the solution is not exact"); break; } }
+    if (exact_class && is_monomial_pow2(A)) { r.tag("monomial"); for (auto &e : rr) if (e != 0) { r.fail(what + ": monomial power-of-two matrix: the solution is not exact"); break; } }
     bool exact = true; for (auto &e : rr) if (e != 0) exact = false; if (exact) r.tag("exact");
 }
 
 struct DMat { std::vector<ptrdiff_t> ptr, col; std::vector<double> val; std::shared_ptr<amgcl::backend::crs<double>> crs; };
 static DMat dmat(const Mat &A) { DMat M; M.ptr = A.ptr; M.col = A.col; M.val.resize(A.val.size()); for (size_t i = 0; i < M.val.size(); ++i) M.val[i] = A.val[i].v.get_d(); M.crs = std::make_shared<amgcl::backend::crs<double>>((size_t)A.n, (size_t)A.m, M.ptr, M.col, M.val); return M; }
 
-template <class Solver> static void run_solver(Result &r, const Mat &A, const std::vector<std::vector<Q>> &bs, const char *name) {
+template <class Solver> static void run_solver(Result &r, const Mat &A, const std::vector<std::vector<Q>> &bs, const char *name, bool exact_class = true) {
     DMat M = dmat(A); Dense D = dense(A);
     amgcl::solver::EigenSolver<Solver> S(*M.crs);
     std::vector<std::vector<double>> xs;
@@ -70,7 +70,7 @@ template <class Solver> static void run_solver(Result &r, const Mat &A, const st
         const std::vector<Q> &b = bs[k % bs.size()];
         std::vector<double> f(b.size()), x(b.size(), std::numeric_limits<double>::quiet_NaN()); for (size_t i = 0; i < b.size(); ++i) f[i] = b[i].v.get_d();
         S(f, x); xs.push_back(x);
-        judge(r, A, D, b, x, std::string("EigenSolver<") + name + "> solve " + std::to_string(k + 1));
+        judge(r, A, D, b, x, std::string("EigenSolver<") + name + "> solve " + std::to_string(k + 1), exact_class);
     }
     if (memcmp(xs.front().data(), xs.back().data(), xs.front().size() * sizeof(double))) r.fail(std::string("EigenSolver<") + name + ">: the same right-hand side gives a different result after other solves on the same object");
     std::ostringstream os; os << S; if (os.str() != "eigen: " + std::to_string(A.n) + " unknowns") r.fail("EigenSolver operator<<");
@@ -111,8 +111,8 @@ static Result execute(const Toks &t) {
         switch (kind) {
             case 0: run_solver<Eigen::SparseLU<CM>>(r, A, bs, "SparseLU<ColMajor,int>"); break;
             case 1: run_solver<Eigen::SimplicialLDLT<CM>>(r, A, bs, "SimplicialLDLT"); break;
-            case 2: run_solver<Eigen::SimplicialLLT<CM>>(r, A, bs, "SimplicialLLT"); break;
-            case 3: run_solver<Eigen::SparseQR<CM, Eigen::COLAMDOrdering<int>>>(r, A, bs, "SparseQR"); break;
+            case 2: run_solver<Eigen::SimplicialLLT<CM>>(r, A, bs, "SimplicialLLT", false); break;       // takes square roots: no exactness claim
+            case 3: run_solver<Eigen::SparseQR<CM, Eigen::COLAMDOrdering<int>>>(r, A, bs, "SparseQR", false); break;      // Householder norms: no exactness claim
             case 4: run_solver<Eigen::SimplicialLDLT<RM>>(r, A, bs, "SimplicialLDLT<RowMajor>"); break;
             case 5: run_solver<Eigen::SparseLU<CL>>(r, A, bs, "SparseLU<ColMajor,long>"); break;
         }
